@@ -44,3 +44,15 @@ package utils
 //@ func (*utils.ErrorReader).Read
 //@ props C11
 //@ inline
+//
+// String lemmas for token streams: slicing a concatenation.
+//@ lemma slice_left props C11: forall(Str(x), Str(y), Int(i), Int(j), (0 <= i && i <= j && j <= len(x)) ==> (str_eq((x + y)[i:j], x[i:j]) && (x + y)[i:j] == x[i:j]), trig((x + y)[i:j]))
+//@ lemma slice_right props C11: forall(Str(x), Str(y), Int(i), Int(j), (len(x) <= i && i <= j && j <= len(x) + len(y)) ==> (str_eq((x + y)[i:j], y[i-len(x):j-len(x)]) && (x + y)[i:j] == y[i-len(x):j-len(x)]), trig((x + y)[i:j]))
+//
+//@ func utils.Compress -> err
+//@ props C11
+//@ trusted s2 (github.com/klauspost/compress) through io.Copy: lossless, reads src to the end, appends to dst
+//@ requires tag(src) == tagof(*bytes.Buffer) && tag(dst) == tagof(*bytes.Buffer) && unbox(*bytes.Buffer, src) != unbox(*bytes.Buffer, dst)
+//@ assigns BufC, BufStore
+//@ ensures err == nil ==> BufC == store(store(old(BufC), ref(unbox(*bytes.Buffer, src)), ""), ref(unbox(*bytes.Buffer, dst)), old(BufC)[ref(unbox(*bytes.Buffer, dst))] + s2c(old(BufC)[ref(unbox(*bytes.Buffer, src))]))
+//@ ensures forall(Int(x), (x != ref(unbox(*bytes.Buffer, src)) && x != ref(unbox(*bytes.Buffer, dst))) ==> BufStore[x] == old(BufStore)[x], trig(BufStore[x]))
